@@ -1,6 +1,6 @@
 (* C05 — the reader is a faithful cursor over the file's point sequence. *)
 From Coq Require Import ZArith List Bool.
-From LasV Require Import Lib.Base Gen.GenCursor Model.Cursor Proofs.CursorProofs.
+From LasV Require Import Lib.Base Gen.GenCursor Model.Cursor Proofs.CursorProofs Model.CursorBytes Proofs.CursorBytesProofs.
 Import ListNotations.
 Open Scope Z_scope.
 
@@ -26,7 +26,31 @@ Theorem C05_iterator_shape : gen_iter_stops_on_empty = true.
 Proof. reflexivity. Qed.
 Print Assumptions C05_iterator_shape.
 
+(* byte level, any file (also one laspy did not write): the header announces offset off, record length L and count n; a reader
+   that addresses the stream with stride L returns, for every history, exactly the bytes of the records named by the cursor
+   (hence, with C05_refines, by the abstract cursor of the property) ... *)
+Theorem C05_bytes : forall off L n ops,
+  snd (brun off L (mkB n 0 off) ops) = map (out_bytes off L) (snd (crun (mkC n 0 0) ops)).
+Proof. exact cursor_bytes. Qed.
+Print Assumptions C05_bytes.
+
+(* ... never a byte outside the n records of the point data, and the stream stands at the first byte of the cursor's record *)
+Theorem C05_bytes_bounds : forall off L n ops, 0 <= n -> 0 <= L ->
+  Forall (bytes_in_bounds off (off + n * L)) (snd (brun off L (mkB n 0 off) ops))
+  /\ b_pos (fst (brun off L (mkB n 0 off) ops)) = off + b_read (fst (brun off L (mkB n 0 off) ops)) * L.
+Proof. exact cursor_bytes_bounds. Qed.
+Print Assumptions C05_bytes_bounds.
+
+(* the stride the reader uses (header.point_format.size as rebuilt by read_from; compared with the header's record length on
+   every file by the correspondence) must BE the record length: any other stride already fails on the first read of two records *)
+Theorem C05_stride_necessary : forall off L st n, 2 <= n -> st <> L ->
+  snd (brun off st (mkB n 0 off) [CRead 2]) <> map (out_bytes off L) (snd (crun (mkC n 0 0) [CRead 2])).
+Proof. exact stride_necessary. Qed.
+Print Assumptions C05_stride_necessary.
+
 Example C05_nonvacuous :
   snd (crun (mkC 10 0 0) [CRead 3; CSeek (-2) 2; CNext 5; CNext 5; CSeek 10 0; CSeek 4 1; CReadAll])
-  = [OSlice 0 3; OSeek 8; OSlice 8 10; OErr EStop; OErr EIndex; OErr EIndex; OSlice 10 10].
-Proof. vm_compute. reflexivity. Qed.
+  = [OSlice 0 3; OSeek 8; OSlice 8 10; OErr EStop; OErr EIndex; OErr EIndex; OSlice 10 10]
+  /\ snd (brun 300 37 (mkB 10 0 300) [CRead 3; CSeek (-2) 2; CNext 5; CNext 5; CSeek 4 0; CReadAll])
+  = [BBytes 300 411; BSeek 8; BBytes 596 670; BErr EStop; BSeek 4; BBytes 448 670].
+Proof. vm_compute. split; reflexivity. Qed.
